@@ -148,15 +148,16 @@ def proteoforms(prot, kind, sect):
 
 def alt_expected(prot, kind, sect, w2f, cl: O.Cleavage, canon):
     """-> (must: {peptide: category}, may: set).  Categories: 'sect', 'w2f', 'sect+w2f'.
-    MUST leaves out what the statement does not fix: N-terminal M removal, the trailing product of
-    an mRNA_end_NF ORF, W>F forms on which the two readings (substitute the peptide / substitute
+    MUST leaves out what the statement does not fix: N-terminal M removal, W>F forms on which the two readings (substitute the peptide / substitute
     before digesting) disagree.  MAY contains all of them."""
     ok = lambda p: cl.valid(p) and p not in canon
     clip = not kind.startswith('startnf')
     m_sect, m_w2f, m_both, may = set(), set(), set(), set()
     for label, S, open_end in proteoforms(prot, kind, sect):
         d_must = cl.digest(S, clip_m=False, drop_last=open_end)
-        d_may = cl.digest(S, clip_m=clip)
+        # the open-ended last fragment of an mRNA_end_NF ORF is bounded by the end of the annotation, not by a
+        # cleavage site or a stop: it is not a digestion product, so it is not allowed either ("outputs exactly")
+        d_may = cl.digest(S, clip_m=clip, drop_last=open_end)
         if label != 'full':
             m_sect |= {p for p in d_must if ok(p)}
             may |= {p for p in d_may if ok(p)}
@@ -173,7 +174,7 @@ def alt_expected(prot, kind, sect, w2f, cl: O.Cleavage, canon):
             for W in w_subsets(S):
                 S2 = subst(S, W)
                 r2_must |= {q for q in cl.digest(S2, clip_m=False, drop_last=open_end) if ok(q)}
-                r2_may |= {q for q in cl.digest(S2, clip_m=clip) if ok(q) and q not in d_may}
+                r2_may |= {q for q in cl.digest(S2, clip_m=clip, drop_last=open_end) if ok(q) and q not in d_may}
             (m_w2f if label == 'full' else m_both).update(r1_must & r2_must)
             may |= r1_may | r2_may
     must = {}
